@@ -369,13 +369,24 @@ pub fn exec_whynot(req: &str) -> String {
     let lits: Option<Vec<String>> = tuple.values().iter().map(whynot_literal).collect();
     let lits = match lits { Some(l) => l, None => return "bad-request:target-literal".into() };
     let kg = match build_kg(&items) { Ok(k) => k, Err(e) => return e };
+    // the derived data `why_not_query` hands to the explanation (handler.rs: one evaluation of
+    // `__query__(V0..) <- rel(V0..)` when the relation has rules; none when it has no rules or the
+    // evaluation fails) — recorded like for `.why`
+    let derived_wire = match kg.rules.iter().find(|r| r.head.relation == rel).map(|r| r.head.args.len()) {
+        Some(arity) => {
+            let vars: Vec<String> = (0..arity).map(|i| format!("V{i}")).collect();
+            let q = format!("__query__({}) <- {}({})", vars.join(", "), rel, vars.join(", "));
+            match kg.h.get_storage().execute_and_get_context("default", &q) { Ok((_, _, _, d, _)) => db_to_wire(&d), Err(_) => "-".to_string() }
+        }
+        None => "-".to_string(),
+    };
     let res = match run_stmt(&kg.h, &format!(".why_not {}({})", rel, lits.join(", "))) { Ok(r) => r, Err(_) => return "err:why_not".into() };
     match res.proof_trees.as_ref().and_then(|t| t.first()) {
         Some(t) => {
             let root = t.roots.first().and_then(|r| t.nodes.get(r));
             // the target as the handler parsed it
             match root { Some(r) if r.conclusion.pred == rel && r.conclusion.args == tuple.values().to_vec() => {}, _ => return "err:target-differs".into() }
-            format!("{} | {}", kg.perm_wire(), whynot_to_wire(t, &kg.rules))
+            format!("{} | D {} | {}", kg.perm_wire(), derived_wire, whynot_to_wire(t, &kg.rules))
         }
         None => "err:no-tree".into(),
     }
